@@ -1,12 +1,37 @@
 (* C12 — equivalent ways of specifying a model give the same model (algebraic part; the normalisation of the
    API routes to an event list is tied by the correspondence check in harness/c12.py). *)
 From Coq Require Import List Arith Ring Permutation.
-From PV Require Import Assembly AssemblyProofs Gen.AssemblyGen.
+From PV Require Import Assembly AssemblyProofs Gen.AssemblyGen Routes Gen.RoutesGen.
 Import ListNotations.
 
 Theorem C12_code_is_model :
   translator_ok = true /\ ode_table_ok ode_tab ode_res = true /\ oscope_ok ode_scope ode_res = true.
 Proof. vm_compute. repeat split. Qed.
+
+(* the API routes, as the current source of the constructors, add_* methods and list setters normalises them
+   (Gen/RoutesGen.v: that source run on symbolic processes): every route stores exactly one event carrying the rate and the
+   canonical transitions of the process it was given; the caller's objects are unchanged; list order is kept; the
+   explicit-ODE route stores the equation; malformed descriptions are refused *)
+Theorem C12_routes_table :
+  RoutesGen.translator_ok = true /\ routes_ok route_rows reuse_rows order_row ode_route_ok refused_rows = true.
+Proof. vm_compute. split; reflexivity. Qed.
+
+Lemma routes_rows_ok : forall row, In row route_rows -> row_ok row = true.
+Proof. assert (H : forallb row_ok route_rows = true) by (vm_compute; reflexivity).
+  intros row Hin. exact (proj1 (forallb_forall _ _) H row Hin). Qed.
+
+Section Routes.
+  Variables (A : Type) (a0 a1 : A) (add mul sub : A -> A -> A) (opp : A -> A).
+  (* whatever state names o d, magnitudes ms and rate r the symbols stand for: the event stored by any route of the table
+     contributes to every state what the canonical description of that process contributes *)
+  Theorem C12_routes : forall row, In row route_rows -> forall (o d : nat) (ms : nat -> A) (r : A),
+    exists trs, snd row = Stored [(true, trs)] true /\
+      rate (inst_ev A o d ms r trs) = r /\
+      forall rest i, ev_part A a0 a1 add mul sub opp (inst_ev A o d ms r trs :: rest) i
+                   = ev_part A a0 a1 add mul sub opp (inst_ev A o d ms r (expected (snd (fst row))) :: rest) i.
+  Proof. intros row Hin o d ms r. exact (route_sound A a0 a1 add mul sub opp o d ms r row (routes_rows_ok row Hin)). Qed.
+End Routes.
+Print Assumptions C12_routes.
 
 Section Ring.
   Variables (A : Type) (a0 a1 : A) (add mul sub : A -> A -> A) (opp : A -> A).
